@@ -27,7 +27,7 @@ func recPaths(ti *mon.TraceIndex, rec string) []string {
 func c08(args []string) {
 	c := chk.New("C08", "exploration", args)
 	c.Build(false)
-	c.Rule("chains and trees of 1-3 processing stages with 3-40 items; recorder components in front of every in-port (single sender, so their log is the arrival order) and behind every out-port; task durations assigned so that completion order is the reverse or a random permutation of arrival order; slots in {2,4,16}, SCIPIPE_BUFSIZE in {1,3,128}, slow downstream recorders (buffers fill up), some middle tasks skipped because their outputs pre-exist, fan-in of two upstreams through a recording merge point; oracle: sequence behind each out-port == image (through the reference's task -> out-path map) of the sequence recorded in front of the in-port; projection of a merged sequence onto each upstream == that upstream's own output sequence; every item passing a recorder behind a non-streaming out-port of a command / Go-function process must be a file at that moment (the recorder stats it on reception). distinct_nontrivial = runs in which the completion order of some process really differed from its arrival order (measured from the commands' end stamps), distinct by (shape, config, permutation)")
+	c.Rule("chains and trees of 1-3 processing stages with 3-40 items; recorder components in front of every in-port (single sender, so their log is the arrival order) and behind every out-port; task durations assigned so that completion order is the reverse or a random permutation of arrival order; slots in {2,4,16}, SCIPIPE_BUFSIZE in {1,3,128}, slow downstream recorders (buffers fill up), some middle tasks skipped because their outputs pre-exist, fan-in of two upstreams through a recording merge point; bundled components between recorders (FileCombinator: first occurrences on each out-port in arrival order; IPSelectorSync: selected items in arrival order; MapToTags: pass-through) with file names whose arrival order is not lexicographic; oracle: sequence behind each out-port == image (through the reference's task -> out-path map) of the sequence recorded in front of the in-port; projection of a merged sequence onto each upstream == that upstream's own output sequence; every item passing a recorder behind a non-streaming out-port of a command / Go-function process must be a file at that moment (the recorder stats it on reception). distinct_nontrivial = runs in which the completion order of some process really differed from its arrival order (measured from the commands' end stamps), distinct by (shape, config, permutation)")
 	c.Assume("recorders are harness components written against the public BaseProcess/InPort/OutPort API")
 	rng := c.Rand("c08")
 	type job struct {
@@ -302,6 +302,87 @@ func c08(args []string) {
 		}
 		c.Count("splitter_order_runs", 1)
 		c.Nontrivial(fmt.Sprintf("splitorder|%d|%d", nf, i))
+	})
+	// bundled components with in- and out-ports are processes too: FileCombinator (on each out-port the first
+	// occurrences of the items follow their arrival order), IPSelectorSync (selected tuples in arrival order),
+	// MapToTags (pass-through in arrival order). File names are chosen so that arrival order is not lexicographic,
+	// and a slow recorder behind the component fills the buffers.
+	ncomp := c.Pick(9, 36)
+	run.Parallel(ncomp, func(i int) {
+		root := c.CaseDir()
+		defer c.Drop(root)
+		kind := []string{"combinator", "selector", "maptotags"}[i%3]
+		names := [][]string{{"s9.txt", "s10.txt", "s2.txt", "s1.txt"}, {"hg38.fa", "hg19.fa", "mm10.fa"}, {"z.txt", "y.txt", "x.txt", "w.txt", "v.txt"}}[(i/3)%3]
+		s := &spec.Spec{Name: fmt.Sprintf("comporder_%s%d", kind, i), MaxTasks: 2, Sources: map[string]string{}}
+		mksrc := func(name, prefix string) {
+			src := &spec.Proc{Name: name, Kind: spec.KFileSource}
+			for _, f := range names {
+				src.Files = append(src.Files, prefix+f)
+				s.Sources[prefix+f] = prefix + f + "\n"
+			}
+			s.Procs = append(s.Procs, src)
+		}
+		slow := i % 2 * 2
+		pairs := map[string]string{} // recorder in front -> recorder behind
+		switch kind {
+		case "combinator":
+			mksrc("srcA", "a_")
+			mksrc("srcB", "b_")
+			s.Procs = append(s.Procs, &spec.Proc{Name: "RA", Kind: spec.KRecorder}, &spec.Proc{Name: "RB", Kind: spec.KRecorder},
+				&spec.Proc{Name: "FC", Kind: spec.KFileComb, Ports: []string{"a", "b"}}, &spec.Proc{Name: "OA", Kind: spec.KRecorder, DelayMS: slow}, &spec.Proc{Name: "OB", Kind: spec.KRecorder})
+			s.Conns = append(s.Conns, &spec.Conn{From: "srcA.out", To: "RA.in"}, &spec.Conn{From: "srcB.out", To: "RB.in"}, &spec.Conn{From: "RA.out", To: "FC.a"}, &spec.Conn{From: "RB.out", To: "FC.b"},
+				&spec.Conn{From: "FC.a", To: "OA.in"}, &spec.Conn{From: "FC.b", To: "OB.in"})
+			pairs["RA"], pairs["RB"] = "OA", "OB"
+		case "selector":
+			mksrc("srcA", "a_")
+			s.Procs = append(s.Procs, &spec.Proc{Name: "RA", Kind: spec.KRecorder}, &spec.Proc{Name: "SEL", Kind: spec.KSelector, Ports: []string{"a"}, Pred: "notcontains:" + names[1]},
+				&spec.Proc{Name: "OA", Kind: spec.KRecorder, DelayMS: slow})
+			s.Conns = append(s.Conns, &spec.Conn{From: "srcA.out", To: "RA.in"}, &spec.Conn{From: "RA.out", To: "SEL.a"}, &spec.Conn{From: "SEL.a", To: "OA.in"})
+			pairs["RA"] = "OA"
+		case "maptotags":
+			mksrc("srcA", "a_")
+			s.Procs = append(s.Procs, &spec.Proc{Name: "RA", Kind: spec.KRecorder}, &spec.Proc{Name: "T", Kind: spec.KMapToTags, Tags: []*spec.TagRule{{Key: "k", Rule: "stem"}}},
+				&spec.Proc{Name: "OA", Kind: spec.KRecorder, DelayMS: slow})
+			s.Conns = append(s.Conns, &spec.Conn{From: "srcA.out", To: "RA.in"}, &spec.Conn{From: "RA.out", To: "T.in"}, &spec.Conn{From: "T.out", To: "OA.in"})
+			pairs["RA"] = "OA"
+		}
+		cfg := Cfg{Buf: []int{1, 3, 128}[i%3], Procs: []int{2, 4}[i%2], NoHooks: i%2 == 0}
+		res := execSpec(c, root, s, cfg, nil, false, 0)
+		if res.Hang != "" || res.Exit != 0 || !res.Returned {
+			if strings.HasPrefix(res.Hang, "deadlock") || (res.Hang == "" && res.Exit != 0) {
+				c.Violation("component-order-run-failed", fmt.Sprintf("%s: exit %d %s: %s", kind, res.Exit, res.Hang, tail(res.Output(), 400)), map[string]interface{}{"spec": s, "cfg": cfg})
+			} else {
+				c.Inconclusive(res.Hang)
+			}
+			return
+		}
+		ti := mon.Index(res.Trace)
+		for front, behind := range pairs {
+			arrived := recPaths(ti, front)
+			if kind == "selector" {
+				var kept []string
+				for _, p := range arrived {
+					if !strings.Contains(p, names[1]) {
+						kept = append(kept, p)
+					}
+				}
+				arrived = kept
+			}
+			var first []string
+			seen := map[string]bool{}
+			for _, p := range recPaths(ti, behind) {
+				if !seen[p] {
+					seen[p] = true
+					first = append(first, p)
+				}
+			}
+			if strings.Join(first, "\x00") != strings.Join(arrived, "\x00") {
+				c.Violation("order-not-preserved:"+kind, fmt.Sprintf("%s: items arrived as %v, left (first occurrences) as %v", kind, arrived, first), map[string]interface{}{"spec": s, "cfg": cfg, "emitted": recPaths(ti, behind)})
+				return
+			}
+		}
+		c.Count("component_order_runs", 1)
+		c.Nontrivial(fmt.Sprintf("comporder|%s|%d", kind, i))
 	})
 	run.Parallel(len(jobs), func(i int) {
 		j := jobs[i]
